@@ -279,16 +279,16 @@ func initBuilders() {
 	tuples := [][][]float64{
 		{{0.5, 0.49999999999999994}, {23.499999999999996, 23.499999999999996}, {47.49999999999999, 47.49999999999999}, {3.1, 7.7}}, // near-collinear, clockwise
 		{{0.5, 0.5000000000000001}, {23.499999999999996, 23.499999999999996}, {47.49999999999999, 47.49999999999999}, {7.7, 3.1}},  // near-collinear, the other way
-		{{0.1, 0.2}, {10.3, 9.7}, {0.4, 9.9}, {9.6, 0.3}},                                                                        // proper crossing, decimals
-		{{0, 0}, {10, 0}, {5, 0}, {5, 7.5}},                                                                                        // T-junction
-		{{0, 0}, {4, 4}, {2, 2}, {6, 6}},                                                                                          // collinear overlap
-		{{1.5, 2.5, 3.5}, {4.25, 5.125, 6.0625}, {7.1, 8.2, 9.3}, {0.7, 0.8, math.NaN()}},                                         // 3D
-		{{4, 4}, {103, 228}, {4.000000000000001, 3.999999999999999}, {102.99999999999999, 227.99999999999997}},                   // nearly coincident, crossing: the homogeneous-coordinate intersection fails, central-endpoint fallback
-		{{1e120, 2e120}, {9e120, 7e120}, {1e120, 7e120}, {9e120, 1e120}},                                                           // proper crossing whose triple products overflow
-		{{0, 0}, {10, 10}, {10, 10}, {20, 3}},                                                                                      // touching at an end point
-		{{0, 0}, {10, 0}, {3, 0}, {20, 0}},                                                                                         // collinear, partial overlap
-		{{0, 0, 0}, {0, 0, 0}, {1, 1, 1}, {2, 2, 2}},                                                                               // zero-length first segment (3D shortcuts)
-		{{0, 0, 0}, {4, 0, 0}, {0, 1, 0}, {4, 1, 0}},                                                                               // parallel in 3D
+		{{0.1, 0.2}, {10.3, 9.7}, {0.4, 9.9}, {9.6, 0.3}},                                                                          // proper crossing, decimals
+		{{0, 0}, {10, 0}, {5, 0}, {5, 7.5}},                                                                    // T-junction
+		{{0, 0}, {4, 4}, {2, 2}, {6, 6}},                                                                       // collinear overlap
+		{{1.5, 2.5, 3.5}, {4.25, 5.125, 6.0625}, {7.1, 8.2, 9.3}, {0.7, 0.8, math.NaN()}},                      // 3D
+		{{4, 4}, {103, 228}, {4.000000000000001, 3.999999999999999}, {102.99999999999999, 227.99999999999997}}, // nearly coincident, crossing: the homogeneous-coordinate intersection fails, central-endpoint fallback
+		{{1e120, 2e120}, {9e120, 7e120}, {1e120, 7e120}, {9e120, 1e120}},                                       // proper crossing whose triple products overflow
+		{{0, 0}, {10, 10}, {10, 10}, {20, 3}},                                                                  // touching at an end point
+		{{0, 0}, {10, 0}, {3, 0}, {20, 0}},                                                                     // collinear, partial overlap
+		{{0, 0, 0}, {0, 0, 0}, {1, 1, 1}, {2, 2, 2}},                                                           // zero-length first segment (3D shortcuts)
+		{{0, 0, 0}, {4, 0, 0}, {0, 1, 0}, {4, 1, 0}},                                                           // parallel in 3D
 	}
 	for i, tp := range tuples {
 		tp := tp
@@ -522,7 +522,9 @@ func Registry() []Fn {
 			return in.fp(b.Overlaps(geom.XY, b2), b.OverlapsPoint(geom.XY, geom.Coord{1, 1}), b.Polygon(), b.Clone(), b.IsEmpty())
 		}},
 		{"xy.ConvexHull", nonEmpty, func(in *Input) string { return in.fp(xy.ConvexHull(in.T)) }},
-		{"xy.ConvexHullFlat", func(in *Input) bool { return len(in.Flat) > 0 && in.Layout >= geom.XY && in.Layout <= geom.XYZM && len(in.Flat)%in.Layout.Stride() == 0 }, func(in *Input) string {
+		{"xy.ConvexHullFlat", func(in *Input) bool {
+			return len(in.Flat) > 0 && in.Layout >= geom.XY && in.Layout <= geom.XYZM && len(in.Flat)%in.Layout.Stride() == 0
+		}, func(in *Input) string {
 			return in.fp(xy.ConvexHullFlat(in.Layout, in.Flat))
 		}},
 		{"xy.Centroid", func(in *Input) bool { return nonEmpty(in) && centroidOK(in) }, func(in *Input) string {
@@ -540,7 +542,9 @@ func Registry() []Fn {
 			p[0], p[1] = 2.5, 2.6
 			return in.fp(xy.LocatePointInRing(in.Layout, p, r), xy.IsPointInRing(in.Layout, p, r))
 		}},
-		{"xy.IsOnLine+DistanceFromPointToLineString", func(in *Input) bool { return nonEmpty(in) && len(in.T.FlatCoords()) >= 2*in.Layout.Stride() && in.Layout <= geom.XYZM }, func(in *Input) string {
+		{"xy.IsOnLine+DistanceFromPointToLineString", func(in *Input) bool {
+			return nonEmpty(in) && len(in.T.FlatCoords()) >= 2*in.Layout.Stride() && in.Layout <= geom.XYZM
+		}, func(in *Input) string {
 			p := make(geom.Coord, in.Layout.Stride())
 			p[0], p[1] = 12, 12
 			return in.fp(xy.IsOnLine(in.Layout, p, in.T.FlatCoords()), xy.DistanceFromPointToLineString(in.Layout, p, in.T.FlatCoords()))
@@ -613,7 +617,9 @@ func Registry() []Fn {
 			in.keep(b, b2, b3)
 			return fmt.Sprintf("%s %v %s %v %s %v", b, err, b2, err2, b3, err3)
 		}},
-		{"kml.Encode", func(in *Input) bool { return hasGeom(in) && in.Layout >= geom.XY && in.Layout <= geom.XYZM && nonEmptyDeep(in) }, func(in *Input) string {
+		{"kml.Encode", func(in *Input) bool {
+			return hasGeom(in) && in.Layout >= geom.XY && in.Layout <= geom.XYZM && nonEmptyDeep(in)
+		}, func(in *Input) string {
 			e, err := kml.Encode(in.T)
 			if err != nil {
 				return "err:" + err.Error()
